@@ -213,6 +213,10 @@ impl World {
         if extent == 0 {
             return true;
         }
+        if !alloc::ENABLED {
+            // no ledger (Miri is the allocator oracle in this build)
+            return v.len <= extent;
+        }
         if v.len > extent {
             self.v(
                 &["C02", "C04"],
